@@ -223,7 +223,8 @@ def gen_which(rng, i):
     layout = [rng.choice(KINDS) for _ in range(ndirs)]
     path_entries = list(range(ndirs))
     rng.shuffle(path_entries)
-    extra = rng.choice(['none', 'empty-entry-first', 'empty-entry-last', 'missing-dir', 'none'])
+    extra = rng.choice(['none', 'empty-entry-first', 'empty-entry-last', 'missing-dir', 'none', 'dot-first', 'dotslash-first',
+                        'relative-first', 'dotdot-first'])
     pathmode = rng.choice(['env', 'env', 'environ', 'env-no-PATH', 'env-empty-PATH'])
     name = rng.choice(['prog', 'prog', 'sub/prog', 'ABS', 'my prog'])
     return {'kind': 'which', 'layout': layout, 'order': path_entries, 'extra': extra, 'pathmode': pathmode,
@@ -296,6 +297,15 @@ def which_case(c, tmp, acc):
         entries.append('')
     elif c['extra'] == 'missing-dir':
         entries.insert(0, os.path.join(root, 'nonexistent'))
+    elif c['extra'] == 'dot-first':
+        entries.insert(0, '.')
+    elif c['extra'] == 'dotslash-first':
+        entries.insert(0, './')
+    elif c['extra'] == 'relative-first':
+        # (relative entries are meant relative to the directory the parent is in when it spawns)
+        entries.insert(0, os.path.join('..', 'd%d' % c['order'][-1]))
+    elif c['extra'] == 'dotdot-first':
+        entries.insert(0, os.path.join('..', 'cwd', '.'))
     pathstr = os.pathsep.join(entries)
     old_cwd = os.getcwd()
     old_path = os.environ.get('PATH')
@@ -323,7 +333,15 @@ def which_case(c, tmp, acc):
         except Exception as e:
             acc.violation('which-raises', 'which(%r) raised %r' % (relname, e), c)
             return
-        if got != exp:
+        def same(a, b):
+            # the same file under another spelling would do
+            if a is None or b is None:
+                return a is b
+            try:
+                return a == b or os.path.samefile(os.path.join(cwd, a), os.path.join(cwd, b))
+            except OSError:
+                return False
+        if not same(got, exp):
             acc.violation('which-not-first-match', 'which(%r, PATH=%r [%s]) = %r, first match is %r; layout %r' % (
                 relname, eff, pm, got, exp, c['layout']), c)
             return
